@@ -3,7 +3,8 @@
 EXTENDS Collect
 
 Doc(kind, q, opn, cls, lead, nblk, inlead, nsrc, nwant) ==
-  [kind |-> kind, q |-> q, opn |-> opn, cls |-> cls, lead |-> lead, nblk |-> nblk, inlead |-> inlead, nsrc |-> nsrc, nwant |-> nwant]
+  [kind |-> kind, q |-> q, opn |-> opn, cls |-> cls, lead |-> lead, nblk |-> nblk, inlead |-> inlead, nsrc |-> nsrc, nwant |-> nwant, hdr |-> "none"]
+DocH(kind, q, opn, cls, lead, nblk, inlead, nsrc, nwant, hdr) == [Doc(kind, q, opn, cls, lead, nblk, inlead, nsrc, nwant) EXCEPT !.hdr = hdr]
 It(k, depth, deco, nd, sig2, gap, doc) == [k |-> k, depth |-> depth, deco |-> deco, nd |-> nd, sig2 |-> sig2, gap |-> gap, doc |-> doc, nm |-> 0]
 
 Free1 == Doc("free", "d3", "own", "own", 1, 1, 0, 1, 1)
@@ -19,6 +20,11 @@ C07_Items == {It(k, d, "none", 0, FALSE, 0, doc) : k \in {"def", "adef", "class"
              \cup {It("def", d, deco, 0, FALSE, 0, Free1) : d \in 1..2, deco \in {"property", "setter", "deleter", "static", "classm"}}
              \cup {It(k, d, deco, 0, FALSE, 0, Goog1) : k \in {"def", "adef"}, d \in 0..1, deco \in {"plain", "wraps"}}
 C07_ModDocs == {NoDoc, Free1, Goog2}
+\* freeform layouts with a word that switches one group of prompt lines off (Benchmark:, Script:, ...)
+C07_HdrDocs == {DocH("free", "d3", "own", "own", lead, nblk, 0, nsrc, 1, hdr) : lead \in 1..2, nblk \in 1..2, nsrc \in {1, 3}, hdr \in {"none", "lead", "mid", "both"}}
+C07_HdrItems == {It(k, d, "none", 0, FALSE, 0, doc) : k \in {"def", "class"}, d \in 0..1, doc \in {x \in C07_HdrDocs : x.nblk = 2 \/ x.hdr \in {"none", "lead"}}}
+C07_HdrFill == {It("class", 0, "none", 0, FALSE, 0, NoDoc), It("def", 0, "none", 0, FALSE, 0, Free1)}
+C07_HdrModDocs == {NoDoc, DocH("free", "d3", "own", "own", 1, 2, 0, 1, 1, "lead"), DocH("free", "d3", "own", "own", 1, 2, 0, 1, 1, "both")}
 
 \* ---- C16: importable modules (definitions are executed at import)
 C16_Items == {It(k, d, "none", 0, FALSE, 0, doc) : k \in {"def", "adef", "class"}, d \in 0..2, doc \in {NoDoc, Free1, Goog1}}
